@@ -511,3 +511,135 @@ def r08g(model: Model, rr: RuleResult):
             rr.ok(f"{mname}: {len(containers)} module-level container(s), none written by a function")
     if n < 20:
         raise AnalysisError(f"R08g: only {n} modules scanned")
+
+
+# --------------------------------------------------------------------------------------------- R08j: compute-and-store memos
+def _memo_sites(fi):
+    """(M text, key expr, store stmt, lookup node) for every `M[K] = V` of the function that has a look-up of M under the same key text (`M.get(K)`, `K in M`,
+    `M[K]` read) in the same function: the compute-and-store memo shape."""
+    out = []
+    nodes = list(walk_body(fi, nested=False))
+    for st in nodes:
+        if not (isinstance(st, ast.Assign) and len(st.targets) == 1 and isinstance(st.targets[0], ast.Subscript)):
+            continue
+        tgt = st.targets[0]
+        if not isinstance(tgt.value, (ast.Name, ast.Attribute)):
+            continue
+        m, k = norm(tgt.value), norm(tgt.slice)
+        look = None
+        guards = set()
+        for x in nodes:
+            if isinstance(x, ast.Assert):
+                guards |= {id(y) for y in ast.walk(x)}
+            if isinstance(x, ast.If) and x.body and isinstance(x.body[0], ast.Raise):
+                guards |= {id(y) for y in ast.walk(x.test)}
+        for x in nodes:
+            if id(x) in guards:
+                continue  # a uniqueness check in front of a registry entry, not a memo look-up
+            if isinstance(x, ast.Call) and isinstance(x.func, ast.Attribute) and x.func.attr == "get" and norm(x.func.value) == m and x.args and norm(x.args[0]) == k:
+                look = x
+            elif isinstance(x, ast.Compare) and len(x.ops) == 1 and isinstance(x.ops[0], (ast.In, ast.NotIn)) and norm(x.comparators[0]) == m and norm(x.left) == k:
+                look = x
+            elif isinstance(x, ast.Subscript) and isinstance(x.ctx, ast.Load) and norm(x.value) == m and norm(x.slice) == k and x is not tgt:
+                look = look or x
+        if look is not None:
+            out.append((m, tgt.slice, st, look))
+    return out
+
+
+def _varies_while_cache_lives(model, fi, cache_param, dep_param, depth=4, suffix="") -> Optional[str]:
+    """Does some caller hand the same cache to calls whose `dep_param` argument differs?  -> a description of the call site where that is visible, else None."""
+    if depth == 0:
+        return None
+    from ..dataflow import expr_closure as _ec
+    for g, call in model.call_sites(fi):
+        if isinstance(g.node, ast.Lambda):
+            continue
+        args = {}
+        ps = [p_ for p_ in fi.params if not (fi.cls and p_ in ("self", "cls"))]
+        for p_, a in zip(ps, call.args):
+            args[p_] = a
+        for kw in call.keywords:
+            if kw.arg:
+                args[kw.arg] = kw.value
+        am, ap = args.get(cache_param), args.get(dep_param)
+        if am is None or ap is None or not isinstance(am, ast.Name):
+            continue
+        gcfg = cfg_of(g)
+        at = gcfg.node_for(call)
+        dnames, _ = _ec(gcfg, at, ap)
+        loops = [l for l in ast.walk(g.node) if isinstance(l, (ast.For, ast.While)) and any(x is call for x in ast.walk(l))]
+        if am.id in g.params:
+            # the cache comes from further out: whatever this function computes afresh per call from its own varying inputs varies
+            dep_ps = [p_ for p_ in g.params if p_ in dnames and p_ != am.id]
+            for dp in dep_ps:
+                r = _varies_while_cache_lives(model, g, am.id, dp, depth - 1, suffix)
+                if r:
+                    return r
+            continue
+        # the cache is made here: does the dependency change inside a loop that the cache's creation is outside of?
+        mdefs = [d for d in gcfg.reaching(at, am.id)]
+        for lp in loops:
+            made_inside = any(d.stmt is not None and any(x is d.stmt for x in ast.walk(lp)) for d in mdefs) or \
+                (bool(suffix) and any(isinstance(x, ast.Assign) and any(norm(t) == am.id + suffix for t in x.targets) for x in ast.walk(lp)))  # `cache.table = {}` per iteration
+            if made_inside:
+                continue
+            targets = {n.id for n in ast.walk(lp.target) if isinstance(n, ast.Name)} if isinstance(lp, ast.For) else set()
+            inner_defs = {n.id for n in ast.walk(lp) if isinstance(n, ast.Name) and isinstance(n.ctx, ast.Store)}
+            if dnames & (targets | inner_defs):
+                return f"{g.qualname} creates `{am.id}` outside its loop (line {lp.lineno}) and passes `{short(ap, 40)}`, which changes with every iteration, for `{dep_param}`"
+    return None
+
+
+@RULES.rule("C08", "R08j", "compute-and-store memo tables are keyed on everything the stored value is computed from", floor=6)
+def r08j(model: Model, rr: RuleResult):
+    """`hit = M.get(K) / if K in M` ... `M[K] = V` in one function: V may only be computed from parameters the key K is computed from, unless the other parameter
+    cannot change while M lives.  A table kept on an object or module outlives the call, so every other parameter counts; a table handed in by the caller is
+    followed to where it is created (up to four calls up) and the other parameter must be fixed there."""
+    from ..dataflow import param_closure
+    n = 0
+    for mname, mod in sorted(model.modules.items()):
+        for fi in mod.functions.values():
+            if isinstance(fi.node, ast.Lambda):
+                continue
+            sites = _memo_sites(fi)
+            if not sites:
+                continue
+            cfg = cfg_of(fi)
+            for m, key, store, look in sites:
+                n += 1
+                at = cfg.node_for(store)
+                kps = param_closure(cfg, at, key)
+                base = m.split(".")[0].split("[")[0]
+                # everything read between the look-up and the store (the work the hit skips), the stored value included
+                lo, hi = min(look.lineno, store.lineno), store.end_lineno or store.lineno
+                region = [x for x in walk_body(fi, nested=True) if isinstance(x, ast.Name) and isinstance(x.ctx, ast.Load) and lo <= x.lineno <= hi]
+                vps = set()
+                for x in region:
+                    if x.id in fi.params:
+                        try:
+                            vps |= param_closure(cfg, cfg.node_for(x), x)
+                        except Exception:
+                            vps.add(x.id)
+                extra = sorted(p_ for p_ in vps - kps if p_ not in ("self", "cls", base))
+                label = f"{mname}.{fi.qualname}: {m}[{short(key, 40)}]"
+                if not extra:
+                    rr.ok(f"{label}: the value is computed from the key's inputs only")
+                    continue
+                long_lived = base in ("self", "cls") or (base not in fi.params and base in mod.assigns)
+                reported = False
+                for p_ in extra:
+                    if long_lived:
+                        why = f"the table lives on {'the object' if base in ('self', 'cls') else 'the module'} and is reused by later calls with another `{p_}`"
+                    elif base in fi.params:
+                        why = _varies_while_cache_lives(model, fi, base, p_, suffix=m[len(base):])
+                    else:
+                        why = None
+                    if why:
+                        rr.bad(fi, store, f"memo `{m}` is keyed on `{short(key, 50)}` but the value stored under it is also computed from `{p_}`: {why}; a hit returns what was computed "
+                               f"for another `{p_}` (another glyph's transform / viewBox / configuration)", construct=f"{fi.qualname}: memo {m} keyed without {p_}")
+                        reported = True
+                        break
+                if not reported:
+                    rr.ok(f"{label}: other inputs ({', '.join(extra)}) are fixed while the table lives, as far as its creation sites show")
+    rr.remarks.append(f"{n} compute-and-store memo site(s) examined")
